@@ -22,7 +22,7 @@ static _Bool canon_dotted(sv_t v) {
 }
 void harness(void) {
   HAVOC_BUFS;
-  sv_t view; view.n = nondet_size(); MAKE_SV(view);
+  ND_SV(view);
   uint64_t r = FASTFN(view);
   _Bool c = canon_dotted(view);
   __CPROVER_assert((r != G_ipv4_fast_fail) == c, "postcondition: fast path succeeds exactly on canonical dotted decimal");
